@@ -301,7 +301,20 @@ psRes_t psX509ParseCertData(psPool_t *pool,
                there is nothing to link into the list. */
             continue;
         }
-        numParsed++;
+        if (flags & CERT_ALLOW_BUNDLE_PARTIAL_PARSE)
+        {
+            /* psX509ParseCert returned the number of certificates it
+               could parse: a certificate kept on the list only to
+               record why it was rejected is not a loaded one. */
+            if (err > 0)
+            {
+                numParsed += err;
+            }
+        }
+        else
+        {
+            numParsed++;
+        }
         *tailp = current;
         tailp = &(current->next);
     }
@@ -1501,7 +1514,8 @@ int32 psX509ParseCert(psPool_t *pool, const unsigned char *pp, uint32 size,
         else
         {
             psAssert(cert->parseStatus != PS_X509_PARSE_SUCCESS);
-            if (!(flags & CERT_ALLOW_BUNDLE_PARTIAL_PARSE))
+            if (rc == PS_MEM_FAIL ||
+                    !(flags & CERT_ALLOW_BUNDLE_PARTIAL_PARSE))
             {
                 return rc;
             }
